@@ -19,7 +19,7 @@ Theorem C18_every_name_in_exactly_one_group :
   forall (V : Type) (r : list (Z * V)) ins outs consts g,
     partition r ins outs consts = Ok g ->
     Permutation r (g_inputs g ++ g_outputs g ++ g_constants g ++ g_intermediates g) /\
-    map fst (g_inputs g) = ins /\ map fst (g_outputs g) = outs /\
+    map fst (g_inputs g) = ins /\ map fst (g_outputs g) = dedup [] outs /\
     map fst (g_constants g) = consts.
 Proof. exact partition_exact. Qed.
 Print Assumptions C18_every_name_in_exactly_one_group.
@@ -39,6 +39,20 @@ Theorem C18_filing_succeeds_on_distinct_present_names :
     exists a rest, pop_all r names = Ok (a, rest).
 Proof. exact pop_all_total. Qed.
 Print Assumptions C18_filing_succeeds_on_distinct_present_names.
+
+(* the output names are filed once each, first occurrences in order (a tensor
+   may be listed under several signature outputs); without repetition that is
+   the output list itself *)
+Theorem C18_output_names_filed_once :
+  forall outs,
+    NoDup (dedup [] outs) /\ (forall n, In n (dedup [] outs) <-> In n outs) /\
+    (NoDup outs -> dedup [] outs = outs).
+Proof.
+  intros outs. destruct (dedup_spec outs []) as (ND & I). split; [exact ND|]. split.
+  - intros n. rewrite I. split; [intros [A _]; exact A|intros A; split; [exact A|intros []]].
+  - intros H. apply dedup_nodup; [exact H|intros ? _ []].
+Qed.
+Print Assumptions C18_output_names_filed_once.
 
 Theorem C18_filing_raises_on_missing_name :
   forall (V : Type) names (r : list (Z * V)) n,
@@ -64,5 +78,8 @@ Example C18_nonvacuous :
   | Ok g => g_inputs g = [(1, 10)] /\ g_outputs g = [(4, 40)] /\ g_constants g = [(2, 20)] /\
             g_intermediates g = [(3, 30); (5, 50)]
   | Err _ => False end /\
-  partition [(1, 10); (2, 20)] [1] [1] [] = Err KeyError.
+  partition [(1, 10); (2, 20)] [1] [1] [] = Err KeyError /\
+  match partition [(1, 10); (2, 20); (3, 30)] [1] [3; 3] [] with
+  | Ok g => g_outputs g = [(3, 30)] /\ g_intermediates g = [(2, 20)]
+  | Err _ => False end.
 Proof. vm_compute. repeat split. Qed.
